@@ -135,6 +135,8 @@ def base_env(home, extra=None, path_prefix=None):
         "LC_ALL": "C.UTF-8",
         "TMPDIR": home,
     }
+    if os.environ.get("VERIF_ASAN_LOG"):
+        env["ASAN_OPTIONS"] = "log_path=%s:detect_leaks=0:abort_on_error=1:allocator_may_return_null=1:max_allocation_size_mb=4096" % os.environ["VERIF_ASAN_LOG"]
     if extra:
         env.update(extra)
     return env
@@ -142,6 +144,8 @@ def base_env(home, extra=None, path_prefix=None):
 
 def shim_env(env, log=None, kill_at=None, kill_class=None, fail_at=None, fail_class=None, delay=None, match="copia", argv1=None, alloc_floor=None, gate=None, root=None, tag=None):
     e = dict(env)
+    if os.environ.get("VERIF_VARIANT") == "asan":
+        alloc_floor = None  # the malloc-logging shim and ASan's allocator do not mix
     e["LD_PRELOAD"] = SHIM_ALLOC if alloc_floor else SHIM
     e["FSMON_MATCH"] = match
     if log:
